@@ -19,6 +19,11 @@ Step(e) ==
     [] e.op = "zc" -> Check(e.cached = e.direct, "caching_zone_returns_what_the_underlying_zone_returns")
     [] e.op = "ident" -> Check(e.same, "repeated_lookups_return_the_same_object")
     [] e.op = "fmt" -> Check(~Has(e, "exc") /\ e.text = e.pure, "pattern_and_format_info_lookup_independent_of_history")
+    [] e.op = "fz" ->      \* DateTimeZone.for_offset after somebody else filled the fixed-zone cache (FixedZoneCache.tla)
+         /\ Check(~Has(e, "exc"), "fixed_zone_lookup_completes")
+         /\ Check(e.id = e.pure, "fixed_zone_id_independent_of_who_asked_first")
+         \* (reference only: C13 promises purity, not the form of the id)
+         /\ (IF e.resolves THEN TRUE ELSE PrintT(<<"DIVERGE", "fixed_zone_id_resolves_back_to_an_equal_zone", l>>))
     [] e.op = "thr" ->     \* a thread history: all answers equal the pure function, identity stable
          /\ Check(e.all_pure, "answers_independent_of_concurrent_use")
          /\ Check(e.identity_stable, "concurrent_lookups_return_the_same_object")
